@@ -50,6 +50,8 @@ func (o *obj) value() interface{} {
 		return o.ai
 	case o.t != nil:
 		return o.t
+	case o.cv != nil:
+		return o.cv
 	}
 	return nil
 }
